@@ -33,6 +33,7 @@ const (
 	stNative                 // durably blocked in a native channel/timer operation
 	stBlocked                // blocked on a sim primitive until made runnable
 	stDone
+	stLagging // runnable, but held back by the scheduler for a while (a slow goroutine: others run, time may pass)
 )
 
 // G is a managed goroutine.
@@ -69,6 +70,8 @@ type Config struct {
 	PCTDepth  int // number of priority change points (PolPCT)
 	PCTSpan   int // change points are drawn in [0,PCTSpan) steps
 	StallPM   int // per-mille probability, at a scheduler decision, of letting simulated time pass although goroutines are runnable
+	LagWakePM int // the same for a goroutine that has just been woken out of a blocking channel operation (late wake-up)
+	LagPM     int // per-mille probability, at a scheduler decision, that the chosen LIBRARY goroutine is held back for a while instead of being released (the others go on; time passes only if nobody else can run)
 	Grid      time.Duration
 	MaxSteps  int
 	MaxSim    time.Duration // abort when simulated time since start exceeds this
@@ -105,7 +108,9 @@ type Sched struct {
 	Switches  int
 	Preempts  int
 	Stalls    int
-	StallTime time.Duration
+	Lags      int
+	StallTime time.Duration // injected (global) stall time; see Stalled() for the figure oracles discount
+	lagSpans  []lagSpan
 	FP        uint64 // schedule fingerprint: hash of (goroutine, park site) per switch
 	SitePairs map[uint64]struct{}
 
@@ -190,6 +195,16 @@ func (s *Sched) Configure(f func(c *Config)) {
 	f(&s.cfg)
 	s.hot = map[string]bool{}
 	s.initPCT()
+	s.mu.Unlock()
+}
+
+// SetLateWake changes the late-wake-up rate of the running schedule (a scenario
+// built around a goroutine being slow to notice what it was woken for).
+func (s *Sched) SetLateWake(pm int) {
+	raceDisable()
+	defer raceEnable()
+	s.mu.Lock()
+	s.cfg.LagWakePM = pm
 	s.mu.Unlock()
 }
 
@@ -622,7 +637,7 @@ type Left struct {
 	Lib                   bool
 }
 
-var stateNames = [...]string{"running", "runnable", "native", "blocked", "done"}
+var stateNames = [...]string{"running", "runnable", "native", "blocked", "done", "lagging"}
 
 // Run starts main as the first managed goroutine and schedules until main has
 // returned and every other managed goroutine is done or idle for IdleQuit.
@@ -648,7 +663,7 @@ func (s *Sched) Run(main func()) Outcome {
 			break
 		}
 		var runnable []*G
-		alive := 0
+		alive, lagging := 0, 0
 		for _, g := range s.order {
 			switch g.state {
 			case stRunning:
@@ -659,6 +674,9 @@ func (s *Sched) Run(main func()) Outcome {
 				alive++
 			case stNative, stBlocked:
 				alive++
+			case stLagging:
+				alive++
+				lagging++
 			}
 		}
 		if alive == 0 {
@@ -670,6 +688,12 @@ func (s *Sched) Run(main func()) Outcome {
 			s.AbortWhy = "simtimelimit"
 			s.mu.Unlock()
 			break
+		}
+		if len(runnable) == 0 && lagging > 0 {
+			// everybody else is blocked: time passes until the held-back goroutine is let go
+			s.mu.Unlock()
+			<-s.kick
+			continue
 		}
 		if len(runnable) == 0 {
 			s.mu.Unlock()
@@ -712,6 +736,37 @@ func (s *Sched) Run(main func()) Outcome {
 			sort.Slice(runnable, func(i, j int) bool { return runnable[i].Key < runnable[j].Key })
 			g = runnable[s.tapes[StrSch].Draw(len(runnable))]
 		}
+		lagPM := s.cfg.LagPM
+		if g.why == "resume" && s.cfg.LagWakePM > lagPM {
+			lagPM = s.cfg.LagWakePM // woken by somebody else's action, and slow to get going
+		}
+		if g.Lib && lagPM > 0 && lagPM < 300 && s.instantWithin(4*s.cfg.Grid) {
+			lagPM = 300 // something is due any moment now (a deadline, a ttl): being slow across it is the interesting case
+		}
+		if g.Lib && lagPM > 0 && s.tapes[StrSch].Chance(lagPM, 1000) {
+			// a slow goroutine: it stays where it is for a while, the others go on
+			d := s.stallDuration()
+			g.state = stLagging
+			s.Lags++
+			now := time.Now()
+			s.lagSpans = append(s.lagSpans, lagSpan{now, now.Add(d)})
+			if s.cfg.Trace {
+				s.tracef("lag %s @%s for %v", g.Key, g.why, d)
+			}
+			lg := g
+			time.AfterFunc(d, func() {
+				raceDisable()
+				s.mu.Lock()
+				if lg.state == stLagging {
+					lg.state = stRunnable
+				}
+				s.mu.Unlock()
+				raceEnable()
+				s.kickSched()
+			})
+			s.mu.Unlock()
+			continue
+		}
 		g.state = stRunning
 		s.selOwner = g.goid
 		if g != s.lastG {
@@ -745,6 +800,42 @@ func (s *Sched) Run(main func()) Outcome {
 	}
 	s.mu.Unlock()
 	return out
+}
+
+type lagSpan struct{ start, end time.Time }
+
+// Stalled returns how much injected slowness there has been so far: the global
+// stalls plus, for every goroutine that was or is being held back, the part of
+// its lag that has already elapsed. The difference between two readings is the
+// injected slowness inside that window - what an oracle about elapsed time must
+// allow for.
+func (s *Sched) Stalled() time.Duration {
+	raceDisable()
+	defer raceEnable()
+	s.mu.Lock()
+	defer s.mu.Unlock()
+	d := s.StallTime
+	now := time.Now()
+	for _, l := range s.lagSpans {
+		switch {
+		case !now.Before(l.end):
+			d += l.end.Sub(l.start)
+		case now.After(l.start):
+			d += now.Sub(l.start)
+		}
+	}
+	return d
+}
+
+// instantWithin: is a registered instant due within d from now?
+func (s *Sched) instantWithin(d time.Duration) bool {
+	now := time.Now()
+	for _, in := range s.instants {
+		if x := in.Sub(now); x >= 0 && x <= d {
+			return true
+		}
+	}
+	return false
 }
 
 func (s *Sched) stallDuration() time.Duration {
